@@ -163,6 +163,28 @@ func VerifyFunc(p *Program, fn *ssa.Function, cfg Config, opt Options) (res *Uni
 			res.Limits = append(res.Limits, "engine panic: solver rejected a query: "+u.S.Errors[0])
 		}
 	}()
+	if fn.Pkg != nil {
+		if sf := p.Specs[fn.Pkg.Pkg.Path()]; sf != nil {
+			uname := strings.TrimPrefix(fn.Name(), "gvcL_")
+			if fn.Signature.Recv() != nil {
+				uname = shortFuncName(fn)
+			}
+			if nc := sf.NoContract[uname]; len(nc) > 0 {
+				if u.Cfg.NoContracts == nil {
+					u.Cfg.NoContracts = map[string]bool{}
+				} else {
+					m := map[string]bool{}
+					for k, v := range u.Cfg.NoContracts {
+						m[k] = v
+					}
+					u.Cfg.NoContracts = m
+				}
+				for _, n := range nc {
+					u.Cfg.NoContracts[n] = true
+				}
+			}
+		}
+	}
 	u.alloc0 = u.newInt("alloc0")
 	u.assume(Gt(u.alloc0, IntLit(0)))
 	st := newState(u)
@@ -221,6 +243,9 @@ func VerifyFunc(p *Program, fn *ssa.Function, cfg Config, opt Options) (res *Uni
 		if ct != nil && opt.CheckPosts {
 			u.curFn = append(u.curFn, fn)
 			for _, cl := range ct.Ensures {
+				if cl.ByLemma != "" {
+					continue // discharged by the named lemma
+				}
 				cf := fn.Pkg.Func(cl.Func)
 				t := u.evalPure(st2, cf, all, nil).(*Term)
 				name := fmt.Sprintf("%s#post:%s", FuncName(fn), cl.Text)
